@@ -96,24 +96,27 @@ def layout (ty : Nat) : Option (List Field) :=
   else if ty = 0x31 then some [.lenBytes]                                -- DATAGRAM with Length
   else none
 
+/-! The field parsers take the variable-length-integer parser as a parameter `pv`; the RFC parser
+    proper instantiates it with `Rfc.VarInt.parse` (§16). (The agreement proof re-instantiates it.) -/
+
 /-- `count` (Gap, ACK Range Length) pairs -/
-def parsePairs : Nat → List Nat → Option (List (Nat × Nat) × List Nat)
+def parsePairsWith (pv : List Nat → Option (Nat × List Nat)) : Nat → List Nat → Option (List (Nat × Nat) × List Nat)
   | 0, b => some ([], b)
   | n + 1, b =>
-    match VarInt.parse b with
+    match pv b with
     | none => none
     | some (gap, r) =>
-      match VarInt.parse r with
+      match pv r with
       | none => none
       | some (len, r) =>
-        match parsePairs n r with
+        match parsePairsWith pv n r with
         | none => none
         | some (ps, r) => some ((gap, len) :: ps, r)
 
-def parseField (f : Field) (b : List Nat) : Option (Val × List Nat) :=
+def parseFieldWith (pv : List Nat → Option (Nat × List Nat)) (f : Field) (b : List Nat) : Option (Val × List Nat) :=
   match f with
   | .int =>
-    match VarInt.parse b with
+    match pv b with
     | some (v, r) => some (.int v, r)
     | none => none
   | .len8Bytes =>
@@ -122,28 +125,28 @@ def parseField (f : Field) (b : List Nat) : Option (Val × List Nat) :=
     | n :: r => if r.length < n then none else some (.bytes (r.take n), r.drop n)
   | .fixedBytes n => if b.length < n then none else some (.bytes (b.take n), b.drop n)
   | .lenBytes =>
-    match VarInt.parse b with
+    match pv b with
     | none => none
     | some (n, r) => if r.length < n then none else some (.bytes (r.take n), r.drop n)
   | .restBytes => some (.bytes b, [])
   | .ackRanges =>
-    match VarInt.parse b with
+    match pv b with
     | none => none
     | some (count, r) =>
-      match VarInt.parse r with
+      match pv r with
       | none => none
       | some (first, r) =>
-        match parsePairs count r with
+        match parsePairsWith pv count r with
         | none => none
         | some (ps, r) => some (.ranges first ps, r)
 
-def parseFields : List Field → List Nat → Option (List Val × List Nat)
+def parseFieldsWith (pv : List Nat → Option (Nat × List Nat)) : List Field → List Nat → Option (List Val × List Nat)
   | [], b => some ([], b)
   | f :: fs, b =>
-    match parseField f b with
+    match parseFieldWith pv f b with
     | none => none
     | some (v, r) =>
-      match parseFields fs r with
+      match parseFieldsWith pv fs r with
       | none => none
       | some (vs, r) => some (v :: vs, r)
 
@@ -227,8 +230,8 @@ def interp (ty : Nat) (vs : List Val) : Option Frame :=
   else if ty = 0x30 ∨ ty = 0x31 then (match vs with | [.bytes d] => some (.datagram d) | _ => none)
   else none
 
-def parseFrame (b : List Nat) : Option (Frame × List Nat) :=
-  match VarInt.parse b with
+def parseFrameWith (pv : List Nat → Option (Nat × List Nat)) (b : List Nat) : Option (Frame × List Nat) :=
+  match pv b with
   | none => none
   | some (ty, r) =>
     -- §12.4: "a frame type MUST use the shortest possible encoding"
@@ -237,15 +240,18 @@ def parseFrame (b : List Nat) : Option (Frame × List Nat) :=
       match layout ty with
       | none => none          -- §12.4: unknown frame type -> FRAME_ENCODING_ERROR
       | some fields =>
-        match parseFields fields r with
+        match parseFieldsWith pv fields r with
         | none => none
         | some (vs, rest) =>
           match interp ty vs with
           | none => none
           | some f => some (f, rest)
 
+/-- the RFC frame parser -/
+def parseFrame (b : List Nat) : Option (Frame × List Nat) := parseFrameWith VarInt.parse b
+
 /-- §12.4: the payload of a packet is a sequence of complete frames (fuel = payload length;
-    `none` for an out-of-fuel run cannot happen, every frame has a type byte) -/
+    an out-of-fuel run cannot happen, every frame has a type byte) -/
 def parseFramesFuel : Nat → List Nat → Option (List Frame)
   | _, [] => some []
   | 0, _ :: _ => none
